@@ -195,6 +195,10 @@ def _stmt_output(case, sid, lines, mode='exec'):
 
 def sig(info):
     fields = sorted({b[0].split('.')[0].split('(')[0].rstrip('0123456789') for b in info['bad']})
+    shapes = {k[1] for k in info['key']}
+    known_shape = 'comment_before_clause' if 'f9' in shapes else ('backslash_header_deep' if 'f10' in shapes else 'none')
+    if known_shape != 'none' and (any('ParseError' in b[2] for b in info['bad']) or not info['f11']):
+        return {'kind': 'run_replay', 'known_shape': known_shape, 'outcome_is_parse_error': any('ParseError' in b[2] for b in info['bad'])}
     return {'kind': 'run_replay', 'fields': ','.join(fields), 'prompt_indent_change_after_source': bool(info['f11'])}
 
 
